@@ -33,6 +33,16 @@ def check(run):
                              limits=(1, 2, 3, 4))
     cases += c2
     meta += m2
+    # stepped posting lists (see C12): frequencies that jump between runs of documents, one term everywhere,
+    # one in every 2nd/3rd document, a sparse third one - conjunctions, optional and excluded clauses over them,
+    # small limits, so that the collector skips by quality across misaligned blocks
+    from harness.props import c12
+    c3, m3 = c01.build_cases(run, rng, 6 if quick else 60, 14 if quick else 20, ndocs=(14, 30), blocklimit=None,
+                             paths=("unlimited", "limited"), scored_only=True, cmp="full", kinds=("ranked", "error"),
+                             alt=True, limits=(1, 2, 3, 5), storage="ram",
+                             worldgen=lambda r, n: (c12.stepped_docs(r, n), c12.stepped_query), plangen=c12.stepped_plan)
+    cases += c3
+    meta += m3
     rejects = qobs.judge(run, cases)
     c01.report(run, "C05", cases, meta, rejects, "c05")
     rank_regime(run, rng, 6 if quick else 60, 12 if quick else 16)
